@@ -76,7 +76,36 @@ impl Plugin for Spn {
         cand: &[EntrySealedCommitted],
         _conflict_uuids: &BTreeSet<Uuid>,
     ) -> Result<(), OperationError> {
-        Self::post_modify_inner(qs, pre_cand, cand)
+        Self::post_modify_inner(qs, pre_cand, cand)?;
+
+        // A merge takes name and spn from whichever replica changed each attribute last.
+        // Since every local modify re-asserts the spn, a rename on one replica merged with a
+        // later unrelated change of the same entry on another replica yields the new name
+        // with the old spn. Regenerate the spn of any live merged entry where they disagree.
+        let domain_name = qs.get_domain_name().to_string();
+        let stale: Vec<_> = cand
+            .iter()
+            .filter(|e| {
+                e.mask_recycled_ts().is_some()
+                    && (e.attribute_equality(Attribute::Class, &EntryClass::Group.into())
+                        || e.attribute_equality(Attribute::Class, &EntryClass::Account.into()))
+            })
+            .filter(|e| match e.generate_spn(&domain_name) {
+                Some(want) => e.get_ava_set(Attribute::Spn) != Some(&want),
+                None => false,
+            })
+            .map(|e| f_eq(Attribute::Uuid, PartialValue::Uuid(e.get_uuid())))
+            .collect();
+
+        if stale.is_empty() {
+            return Ok(());
+        }
+
+        // Purge and let pre_modify regenerate, as the domain rename path does.
+        qs.internal_modify(
+            &filter!(f_or(stale)),
+            &modlist!([m_purge(Attribute::Spn)]),
+        )
     }
 
     #[instrument(level = "debug", name = "spn::verify", skip_all)]
